@@ -121,17 +121,42 @@ def _codec(fv):
     bound = set(names) | {x.id for x in ast.walk(fn) if isinstance(x, ast.Name) and isinstance(x.ctx, ast.Store)}
     free = {x.id for x in ast.walk(fn) if isinstance(x, ast.Name) and isinstance(x.ctx, ast.Load)} - bound
     subst = {}
+    structs = {}
+    mod_ns = getattr(getattr(fv, "module", None), "ns", None) or {}
     for nm in free:
+        if nm not in cv and nm in mod_ns and nm not in ("struct",):
+            # module constants: plain values are folded, precompiled struct.Struct objects are written as the module calls
+            v = mod_ns[nm]
+            if isinstance(v, struct.Struct):
+                structs[nm] = v
+            elif isinstance(v, (int, bytes, str)) and not isinstance(v, bool):
+                subst[nm] = ast.Constant(v)
+            continue
         if nm in cv:
             v = cv[nm]
+            if isinstance(v, struct.Struct):
+                structs[nm] = v
+                continue
             if v is None or isinstance(v, (bool, int, str, bytes)):
                 subst[nm] = ast.Constant(v)
             elif isinstance(v, (FuncVal, ClassVal)) and getattr(v, "name", None):
                 subst[nm] = ast.Name(v.name, ast.Load())
-    if subst:
+    if subst or structs:
         import copy as _copy
 
         class _S(ast.NodeTransformer):
+            def visit_Call(s_, n):
+                n = s_.generic_visit(n)
+                f_ = n.func
+                if isinstance(f_, ast.Attribute) and isinstance(f_.value, ast.Name) and f_.value.id in structs and f_.attr in ("pack", "unpack") and not n.keywords:
+                    return ast.copy_location(ast.Call(ast.Attribute(ast.Name("struct", ast.Load()), f_.attr, ast.Load()), [ast.Constant(structs[f_.value.id].format)] + n.args, []), n)
+                return n
+
+            def visit_Attribute(s_, n):
+                if isinstance(n.value, ast.Name) and n.value.id in structs and n.attr in ("size", "format") and isinstance(n.ctx, ast.Load):
+                    return ast.copy_location(ast.Constant(getattr(structs[n.value.id], n.attr)), n)
+                return s_.generic_visit(n)
+
             def visit_Compare(s_, n):
                 if len(n.ops) == 1 and isinstance(n.ops[0], (ast.Is, ast.IsNot)) and isinstance(n.left, ast.Name) and isinstance(subst.get(n.left.id), ast.Name) \
                         and isinstance(n.comparators[0], ast.Constant) and n.comparators[0].value is None:
